@@ -36,6 +36,7 @@ KINDS = ['rand_bytes', 'trunc_pickle', 'flip_pickle', 'pickle_nondict',
          'json_nondict', 'json_dict', 'missing_field', 'wrong_type',
          'unknown_method', 'echo_own', 'callback_other_host',
          'callback_unknown_id', 'callback_malformed', 'handler_raises_cb',
+         'chained_cb',
          'handler_raises_disconnect', 'listen_raises', 'bad_pickle_class',
          'remote_ops_unknown', 'valid_emit', 'dict_raw', 'str_raw']
 
@@ -453,6 +454,32 @@ def _run(case, cfg, w):
                     'method': 'callback',
                     'host_id': hosts[0].manager.host_id, 'sid': sent_sid,
                     'namespace': '/', 'id': ids[-1], 'args': ['boom']}))
+            nontrivial = True
+        elif kind == 'chained_cb':
+            # a valid callback message whose application callback uses the
+            # server again from inside the listener: it emits with another
+            # callback (chained acknowledgements)
+            inner_log = []
+            if is_async:
+                async def chain_cb(*a, i=i):
+                    rec.count('app.chained_callback')
+                    await hosts[0].emit('q2', 'n%d' % i, to=sent_sid,
+                                        callback=lambda *b: inner_log.append(b))
+            else:
+                def chain_cb(*a, i=i):
+                    rec.count('app.chained_callback')
+                    hosts[0].emit('q2', 'n%d' % i, to=sent_sid,
+                                  callback=lambda *b: inner_log.append(b))
+            w.api('h0', 'emit', 'q', 'c%d' % i, to=sent_sid,
+                  callback=chain_cb)
+            w.settle()
+            ids = sorted(k for k in hosts[0].manager.callbacks.get(
+                sent_sid, {}) if isinstance(k, int))
+            if ids:
+                bus.inject(pickle.dumps({
+                    'method': 'callback',
+                    'host_id': hosts[0].manager.host_id, 'sid': sent_sid,
+                    'namespace': '/', 'id': ids[-1], 'args': ['go']}))
             nontrivial = True
         elif kind == 'handler_raises_disconnect':
             victims += 1
